@@ -1785,6 +1785,11 @@ func (g *gen) chain(tier string, kind string) core.Case {
 		if paniced {
 			break // only under hostile state edits (the store no longer matches the state)
 		}
+		if aerr != nil && tainted && strings.HasPrefix(applyClass(aerr), "err-invalid:e-other") {
+			// the state store refuses to save an edited state (its own consistency checks, outside
+			// this model): the hostile chain ends here
+			break
+		}
 		// C08's part, as a verdict for the model: NextValidators after the change set and one increment
 		nvals := "err"
 		func() {
